@@ -179,6 +179,8 @@ type workerOut struct {
 	HungAt   int            `json:"hung_at"` // >0: the input with this ordinal never returned; resume after it
 	// inputs not explored because an earlier input of the same command hung in this batch
 	SkippedAfterHang int `json:"skipped_after_hang"`
+	// inputs run against keys that are dead but still stored
+	DeadState int `json:"dead_state"`
 }
 
 func newInst() *inproc.Inst {
@@ -224,6 +226,12 @@ func worker(o *common.Opts) {
 			cmd := respc.Cmd(argv...)
 			fmt.Fprintf(j, "%s\n", strings.Join(seqrun.QuoteFull(cmd), " "))
 			in := newInst()
+			// every fifth input meets the preset keys dead but still stored (deadline passed, timer not fired yet)
+			dead := mine%5 == 0
+			if dead {
+				in.ForceDead(presetKeys...)
+				out.DeadState++
+			}
 			var res inproc.Result
 			done := make(chan struct{})
 			began := time.Now()
@@ -247,7 +255,11 @@ func worker(o *common.Opts) {
 						stack = inproc.TopFrames(g, 8)
 					}
 				}
-				out.Wits = append(out.Wits, witness{Kind: "hang", Argv: seqrun.QuoteFull(cmd), Detail: "command did not return within 30s; its goroutine:\n" + stack, Sig: "hang|" + strings.ToUpper(name)})
+				detail := "command did not return within 30s; its goroutine:\n" + stack
+				if dead {
+					detail = "(preset keys dead but still stored) " + detail
+				}
+				out.Wits = append(out.Wits, witness{Kind: "hang", Argv: seqrun.QuoteFull(cmd), Detail: detail, Sig: "hang|" + strings.ToUpper(name)})
 				// every input runs on its own database, so the stuck goroutine is simply left behind; the remaining
 				// inputs of this command in this batch are not explored (the violation is already established)
 				hungCmds[name] = true
@@ -848,6 +860,7 @@ func main() {
 		agg.Inputs += w.Inputs
 		agg.Blocking += w.Blocking
 		agg.SkippedAfterHang += w.SkippedAfterHang
+		agg.DeadState += w.DeadState
 		for k, v := range w.PerCmd {
 			agg.PerCmd[k] += v
 		}
@@ -937,7 +950,7 @@ func main() {
 			"violation_samples":      vsamples,
 		},
 		Assumptions: []string{"exhaustive only inside the stated arity/alphabet box (blocking pops sampled 1 in 23)", "BLPOP/BRPOP are issued with timeout 1 (timeout 0 blocks by definition)",
-			"inputs whose reference output exceeds 10^5 elements are not generated", "the expired-key state is covered by C06"}}
+			"inputs whose reference output exceeds 10^5 elements are not generated", "a fifth of the in-process inputs meet the preset keys dead but still stored; deadlines that pass during a command are C06's subject"}}
 	if inconclusive != "" {
 		ev.Coverage["inconclusive"] = inconclusive
 	}
